@@ -721,6 +721,52 @@ theorem kcount_setAt_hole (vs : List (Option α)) (n : Nat) (x : α) (hn : n < v
       unfold setAt at this ⊢
       cases v <;> simp [kcount, this]
 
+/-! ### more about the trims -/
+
+theorem mem_trimFront (vs : List (Option α)) (off : Int) (x : Option α) (h : x ∈ (trimFront vs off).1) : x ∈ vs := by
+  induction vs generalizing off with
+  | nil => simpa [trimFront] using h
+  | cons v r ih =>
+    cases v with
+    | none => exact List.mem_cons_of_mem _ (ih (off + 1) (by simpa [trimFront] using h))
+    | some y => simpa [trimFront] using h
+
+theorem mem_trimBack (vs : List (Option α)) (x : Option α) (h : x ∈ trimBack vs) : x ∈ vs := by
+  induction vs with
+  | nil => simpa [trimBack] using h
+  | cons v r ih =>
+    simp only [trimBack] at h
+    cases ht : trimBack r with
+    | nil =>
+      rw [ht] at h
+      simp only at h
+      split at h
+      · simp only [List.mem_singleton] at h; subst h; simp
+      · cases h
+    | cons w t =>
+      rw [ht] at h
+      simp only at h
+      rcases List.mem_cons.1 h with rfl | h'
+      · simp
+      · exact List.mem_cons_of_mem _ (ih (by rw [ht]; exact h'))
+
+theorem length_trimFront_le (vs : List (Option α)) (off : Int) : (trimFront vs off).1.length ≤ vs.length := by
+  induction vs generalizing off with
+  | nil => simp [trimFront]
+  | cons v r ih =>
+    cases v with
+    | none => have := ih (off + 1); simp [trimFront]; omega
+    | some y => simp [trimFront]
+
+theorem length_trimBack_le (vs : List (Option α)) : (trimBack vs).length ≤ vs.length := by
+  induction vs with
+  | nil => simp [trimBack]
+  | cons v r ih =>
+    simp only [trimBack]
+    cases ht : trimBack r with
+    | nil => simp only; split <;> simp
+    | cons w t => rw [ht] at ih; simp at ih ⊢; omega
+
 end KSeq
 
 end Arrai.C01
